@@ -134,6 +134,8 @@ class TextObject:
         not do anything in that case.)
         """
         start, end = self.operator_range(document)
+        # (An inclusive motion at the very end of the text covers no character.)
+        end = min(end, len(document.text) - document.cursor_position)
         return self.type != TextObjectType.LINEWISE and start >= end
 
     def get_line_numbers(self, buffer: Buffer) -> tuple[int, int]:
@@ -219,9 +221,12 @@ def create_text_object_decorator(
                 *keys, filter=vi_waiting_for_text_object_mode & filter, eager=eager
             )
             def _apply_operator_to_text_object(event: E) -> None:
-                # Arguments are multiplied.
+                # Arguments are multiplied. (Without any argument, the text
+                # object should not see one either: 'd%' goes to the matching
+                # bracket, 'd5%' to a percentage of the file.)
                 vi_state = event.app.vi_state
-                event._arg = str((vi_state.operator_arg or 1) * (event.arg or 1))
+                if vi_state.operator_arg is not None or event.arg_present:
+                    event._arg = str((vi_state.operator_arg or 1) * (event.arg or 1))
 
                 # Call the text object handler.
                 text_obj = text_object_func(event)
@@ -359,7 +364,9 @@ def create_operator_decorator(
                         event.key_sequence = key_sequence
 
                 event.app.vi_state.operator_func = operator_func_with_key_sequence
-                event.app.vi_state.operator_arg = event.arg
+                event.app.vi_state.operator_arg = (
+                    event.arg if event.arg_present else None
+                )
 
             @key_bindings.add(
                 *keys,
@@ -1853,8 +1860,12 @@ def load_vi_bindings() -> KeyBindingsBase:
         Go to last non-blank of line.
         'g_', 'cg_', 'yg_', etc..
         """
+        document = event.current_buffer.document
+        if not document.current_line:
+            # Empty line: there is nothing to span.
+            return TextObject(0)
         return TextObject(
-            event.current_buffer.document.last_non_blank_of_current_line_position(),
+            document.last_non_blank_of_current_line_position(),
             type=TextObjectType.INCLUSIVE,
         )
 
@@ -1867,9 +1878,10 @@ def load_vi_bindings() -> KeyBindingsBase:
         prev_end = event.current_buffer.document.find_previous_word_ending(
             count=event.arg
         )
-        return TextObject(
-            prev_end - 1 if prev_end is not None else 0, type=TextObjectType.INCLUSIVE
-        )
+        if prev_end is None:
+            # No previous word: the motion fails.
+            return TextObject(0)
+        return TextObject(prev_end - 1, type=TextObjectType.INCLUSIVE)
 
     @text_object("g", "E")
     def _gE(event: E) -> TextObject:
@@ -1880,9 +1892,10 @@ def load_vi_bindings() -> KeyBindingsBase:
         prev_end = event.current_buffer.document.find_previous_word_ending(
             count=event.arg, WORD=True
         )
-        return TextObject(
-            prev_end - 1 if prev_end is not None else 0, type=TextObjectType.INCLUSIVE
-        )
+        if prev_end is None:
+            # No previous WORD: the motion fails.
+            return TextObject(0)
+        return TextObject(prev_end - 1, type=TextObjectType.INCLUSIVE)
 
     @text_object("g", "m")
     def _gm(event: E) -> TextObject:
